@@ -94,3 +94,16 @@ Definition family_ok (h : Z) (q r : node) (wq : Z) (c0 c1 nx : option Z) (wr : Z
    | _, _ => false end) &&
   (match nx with Some n => wq <? n | None => true end) &&
   Bool.eqb ((wq <=? wr) && (match nx with Some n => wr <? n | None => true end)) (is_prefix q r).
+
+(** * the text of a path: order and parsing back *)
+(** [strconv.ParseUint(s, 2, 64)] on a string of '0'/'1' ("" -> 0) *)
+Definition parse_bin (s : list Z) : Z := fold_left (fun a c => 2 * a + (c - 48)) s 0.
+
+(** obs = [sign of strings.Compare(PathStr w1, PathStr w2), PathStr w1, PathStr w2]:
+    text order of the rendered paths = pre-order of the nodes *)
+Definition strorder_ok (q1 q2 : node) (sg : Z) (s1 s2 : list Z) : bool :=
+  (sg =? cmp_sign (bits_cmp q1 q2)) && zs_eqb s1 (node_str q1) && zs_eqb s2 (node_str q2).
+
+(** obs = [w, w2]: w2 = NewPath(parse(PathStr w) << (h - len), len, h) is the word again *)
+Definition strparse_ok (h : Z) (q : node) (w w2 : Z) : bool :=
+  (w =? enc (Z.to_nat h) q) && (w2 =? w).
